@@ -93,6 +93,13 @@ def scenario(ctx, p):
     ctx.assume(v > 0)
     md = ctx.choose("multi_disp", p["mds"])
     ctx.ctx.update(wl=wl, v=v, md=md)
+    if ctx.choose("earlier", [None, "same-call"]) is not None:
+        # history: the same worklist already holds an identical (equally adapted) reagent distribution
+        ctx.ctx["earlier"] = True
+        try:
+            wl.reagent_distribution("S0", 1, 8, "D0", 1, 8, volume=v, multi_disp=md)
+        except Exception:  # noqa: BLE001
+            pass
     wl.reagent_distribution("S", 1, 8, "D", 1, 8, volume=v, multi_disp=md)
     return wl
 
@@ -196,7 +203,10 @@ def judge(ctx, p, outcome):
         if isinstance(val, ns.InvalidOperationError):
             ctx.prove(ctx.lt(wl.max_volume, v), "C06: reagent_distribution refused although volume <= max_volume")
         return
-    (rec,) = list(wl)
+    rec = list(wl)[-1]
+    if len(wl) != (2 if c.get("earlier") else 1):
+        ctx.violate(f"C06: {len(wl)} records after the reagent distribution(s)")
+        return
     f = rec.split(";")
     n = ctx.int_field(f[14])
     vol, _ = ctx.field(f[11])
